@@ -15,7 +15,7 @@ def op(kind, *args):
     return [kind] + list(args)
 
 
-def tape(server, sv, cauth, ops, resumed=False, ems=0, ticket=None, cut=None, cticket=0):
+def tape(server, sv, cauth, ops, resumed=False, ems=0, ticket=None, cut=None, cticket=0, tonly=None):
     """ticket (client victim only): 'accept' / 'decline' = the client's session holds an id AND a ticket and the server echoes the id / answers with a fresh id
     (5th byte 4 selects the mode, the low bit of the seed accepts)"""
     kind = 4 if ticket else (0 if resumed else 1)
@@ -23,6 +23,9 @@ def tape(server, sv, cauth, ops, resumed=False, ems=0, ticket=None, cut=None, ct
     if cut:   # (cut point 1 after-SHD / 2 after-NST / 3 after-NST+CCS, ended by alert?): 5th byte 3, cut = 1 + (seed >> 1) % 3, alert = seed & 1
         kind = 3
         seed_lo = {(1, 0): 0, (1, 1): 1, (2, 0): 2, (2, 1): 3, (3, 0): 4, (3, 1): 5}[cut]
+    if tonly:   # ticket-only client (variant 1 accepted silently, 2 accepted + new ticket, 3 declined, 4 declined + new ticket; fresh ServerHello session id?): 5th byte 4, seed bit 3
+        kind = 4
+        seed_lo = 8 | (tonly[0] - 1) << 4 | (1 if tonly[1] else 0) << 6
     if cticket:   # server victim (ticket keys loaded) whose client offers the SessionTicket extension: 1 empty, 2 bogus ticket (5th byte 3, low seed bit)
         kind = 3
         seed_lo = 6 + (cticket - 1)
@@ -144,6 +147,26 @@ CASES = {
     'dtls-srv-without-ccs': tape(True, D12_RSA_GCM, False, [op(O_DEL, 3)]),
     'dtls-cli-fragmented-finished-zero': tape(False, D12_RSA_GCM, False, [op(O_FINFRAG, 2, ZERO)]),
     'dtls-srv-fragmented-finished-honest': tape(True, D12_RSA_GCM, False, [op(O_FINFRAG, 2, HONEST)]),
+    # RFC 5077 3.4 ticket-only client (no session id stored): accepted trace SH0 [NST] CCS FIN, declined trace SH0 CERT1 [SKE] SHD [NST] CCS FIN
+    'cli-ticket-only-accepted-silently-legal': tape(False, RSA_GCM, False, [], tonly=(1, 0)),
+    'cli-ticket-only-accepted-silently-ecdhe-fresh-id-legal': tape(False, ECDHE_GCM, False, [], tonly=(1, 1)),
+    'cli-ticket-only-accepted-silently-tls11-legal': tape(False, ECDHE_CBC_11, False, [], tonly=(1, 0)),
+    'cli-ticket-only-declined-legal': tape(False, ECDHE_GCM, False, [], tonly=(3, 0)),
+    'cli-ticket-only-declined-new-ticket-legal': tape(False, RSA_GCM, False, [], tonly=(4, 1)),
+    'cli-ticket-only-declined-tls11-legal': tape(False, RSA_CBC_11, False, [], tonly=(3, 1)),
+    'cli-ticket-only-accepted-certificate-injected-ecdhe': tape(False, ECDHE_GCM, False, [op(O_INJECT, 1, T['CERT'])], tonly=(1, 0)),
+    'cli-ticket-only-accepted-certificate-injected-ecdhe-tls11': tape(False, ECDHE_CBC_11, False, [op(O_INJECT, 1, T['CERT'])], tonly=(1, 1)),
+    'cli-ticket-only-accepted-certificate-injected-rsa': tape(False, RSA_GCM, False, [op(O_INJECT, 1, T['CERT'])], tonly=(1, 0)),
+    'cli-ticket-only-accepted-ske-injected': tape(False, ECDHE_GCM, False, [op(O_INJECT, 1, T['SKE'])], tonly=(1, 0)),
+    'cli-ticket-only-accepted-server-hello-done-injected': tape(False, RSA_GCM, False, [op(O_INJECT, 1, T['SHD'])], tonly=(1, 0)),
+    'cli-ticket-only-accepted-certificate-request-injected': tape(False, ECDHE_GCM, False, [op(O_INJECT, 1, T['CR'])], tonly=(1, 1)),
+    'cli-ticket-only-declined-ccs-after-certificate': tape(False, ECDHE_GCM, False, [op(O_INJECT, 2, T['CCS'])], tonly=(3, 0)),
+    'cli-ticket-only-declined-ccs-after-ske': tape(False, ECDHE_GCM, False, [op(O_INJECT, 3, T['CCS'])], tonly=(3, 0)),
+    'cli-ticket-only-declined-ccs-after-certificate-rsa': tape(False, RSA_GCM, False, [op(O_INJECT, 2, T['CCS'])], tonly=(3, 1)),
+    'cli-ticket-only-accepted-zero-secret': tape(False, RSA_GCM, False, [op(O_SECRET, 0)], tonly=(1, 0)),
+    'cli-ticket-only-declined-zero-secret-resumption': tape(False, ECDHE_GCM, False, [op(O_SECRET, 2)], tonly=(3, 0)),
+    'cli-ticket-only-new-ticket-after-ccs': tape(False, RSA_GCM, False, [op(O_SWAP, 3)], tonly=(4, 0)),
+    'cli-ticket-only-new-ticket-omitted': tape(False, ECDHE_GCM, False, [op(O_DEL, 4)], tonly=(4, 0)),
     'cli-resumed-abbreviated-when-full-expected': tape(False, RSA_GCM, False, [op(O_MODE, 2)]),
 }
 
